@@ -494,7 +494,10 @@ class BlackbirdProgram:
                     # for each operation argument, format it
                     # correctly depending on its type
                     if isinstance(v, np.ndarray):
-                        # create an array variable
+                        # create an array variable; skip names of the program's own
+                        # variables, which tdm programs declare in the script as well
+                        while "A{}".format(var_count) in self._var:
+                            var_count += 1
                         var_name = "A{}".format(var_count)
                         args.append(var_name)
                         var_count += 1
@@ -532,7 +535,10 @@ class BlackbirdProgram:
                     # for each operation argument, format it
                     # correctly depending on its type
                     if isinstance(v, np.ndarray):
-                        # create an array variable
+                        # create an array variable; skip names of the program's own
+                        # variables, which tdm programs declare in the script as well
+                        while "A{}".format(var_count) in self._var:
+                            var_count += 1
                         var_name = "A{}".format(var_count)
                         kwargs.append("{}={}".format(k, var_name))
                         var_count += 1
